@@ -391,7 +391,11 @@ def run_c08(ctx):
         signature_wiring(ctx, ctx.roles, "C08-b")
     guarded_clause(ctx, "C08-b", "sampling::sample", "u-wiring", b)
     ctx.rule("C08-c", "the determinant returned as u is (Π_i q[i,i])² of the factor defined by the Cholesky–Banachiewicz recurrence on that matrix")
-    cholesky_clause(ctx, "C08-c")
+    determinant_clause(ctx, "C08-c")
+
+
+def determinant_clause(ctx, RID):
+    cholesky_clause(ctx, RID)
     mw = matrix_world(ctx)
     if mw.ok:
         def detc():
@@ -401,9 +405,15 @@ def run_c08(ctx):
                 raise Undecided("factor matrix not identified")
             Q = sorted(names)[0]
             i = fresh("i")
-            compare(ctx, "C08-c", "determinant == (Π_i q[i,i])²", scalar_of(mw.result.fields["determinant"], "determinant"),
+            compare(ctx, RID, "determinant == (Π_i q[i,i])²", scalar_of(mw.result.fields["determinant"], "determinant"),
                     Expr.atom(("prod", i, "n", leaf(Q, i, i))).powf(2), mw.dec.path, "determinant-wiring", {}, ())
-        guarded_clause(ctx, "C08-c", mw.dec.path, "determinant", detc)
+        guarded_clause(ctx, RID, mw.dec.path, "determinant", detc)
+
+
+def run_c16e(ctx):
+    ctx.rule("C16-e", "[restated from C08-c / C15-e] the value whose zero test guards Ok (C16-a) is (Π_i q[i,i])² with q[i,i] = (A[i,i] − Σ_{k<i} q[i,k]²)^½ the "
+                      "Cholesky pivots of the input matrix itself: nothing between the matrix and the test replaces a zero pivot")
+    determinant_clause(ctx, "C16-e")
 
 
 # ---------------------------------------------------------------------------------------------------
@@ -1525,7 +1535,16 @@ class SectorWorld:
                 finally:
                     I.in_transfer = False
                 post = {name: env.get(vid) for (vid, name, ty) in muts}
+                def at_break(snap_):
+                    out_ = {}
+                    for (vid, name, ty) in muts:
+                        for _e, vars_ in snap_:
+                            if vid in vars_:
+                                out_[name] = vars_[vid]
+                                break
+                    return out_
                 world_self.transfers[case] = {"post": post, "always_breaks": brk, "breaks": [b[0] for b in I.breaks], "reads": sites[0] - sites0, "error": err,
+                                              "state_at_break": [at_break(b[1]) for b in I.breaks],
                                               "reads_at_break": [b[2] - sites0 if b[2] is not None else None for b in I.breaks]}
                 world_self.pre_loop = dict(I.pre_while_state or {})
                 restore(env, snap)
@@ -1669,6 +1688,19 @@ def iteration_clauses(ctx, RA, RB, emit_a):
                    "u-trop-update:" + label, detail="state after the iteration: %s" % {n: scalar_of(post[n], n).key()[:200] for n in vnames})
             others = [n for n in vnames if n not in (found_u, found_v) and scalar_of(post[n], n) != Expr.leaf(n)]
             ctx.ob(RB, "[%s] no other scalar state changes in an iteration" % label, not others, fn, "other-state:" + label, detail="also modified: %s" % others)
+            # the state the loop hands over is the state AT THE EXIT: the same writes must have happened there
+            def same(a_, b_):
+                if isinstance(a_, Arr) and isinstance(b_, Arr):
+                    return [(r.index, r.op, scalar_of(r.value, "x").key(), len(r.binders), len(r.guards)) for r in a_.rules] == \
+                           [(r.index, r.op, scalar_of(r.value, "x").key(), len(r.binders), len(r.guards)) for r in b_.rules]
+                if isinstance(a_, Num) and isinstance(b_, Num):
+                    return a_.expr == b_.expr
+                return False
+            for k_, st in enumerate(tr.get("state_at_break") or []):
+                stale = [n for n in (xname, found_u, found_v) if n is not None and not same(st.get(n), post.get(n))]
+                ctx.ob(RB, "[%s] where the loop is left, the parameter write and the tropical bookkeeping of this iteration have already happened "
+                           "(state at the exit == state at the end of the iteration for x, U_tr, V_tr)" % label, not stale, fn, "state-at-exit:" + label,
+                       detail="at the exit under %s these differ from the end-of-iteration state: %s" % (tr["breaks"][k_], stale))
             w.names = {"x": xname, "kappa": kname, "u": found_u, "v": found_v, "graph": gname}
         guarded_clause(ctx, RA if emit_a else RB, fn, "iteration:" + label, body)
 
